@@ -1,8 +1,8 @@
 (* C10 — MultivariateNormal is the distribution it claims to be.
    Statement file.  A Gaussian is its (mean, covariance) pair (DESIGN section 7); "the law of
    A X + b" is (A m + b, A C A^T).  Generic field: holds for Qc (executable) and R. *)
-From Coq Require Import Arith ZArith List Bool.
-From GPV Require Import Base.LinAlg Base.Exec Base.PySlice Models.C11_mtmvn Models.C10_mvn Proofs.C10_mvn.
+From Coq Require Import Arith ZArith List Bool Reals.
+From GPV Require Import Base.LinAlg Base.Exec Base.PySlice Models.C11_mtmvn Models.C10_mvn Proofs.C10_mvn Proofs.C10_kl.
 Import ListNotations.
 
 (* indexing = marginal: for ANY index function p into the event dimension (slices, index
@@ -100,6 +100,23 @@ Proof. intros K. exact (@kl_self_zero K). Qed.
 Print Assumptions c10_kl_self_zero_partial.
 (* partial: KL >= 0 and the equality of the code's Cholesky / inv_quad_logdet form with this
    closed form need log det monotonicity (DESIGN 9.3); tested by the driver. *)
+
+(* KL >= 0 (over R, every n): kl_mvn_mvn computes  2 KL = tr(W W^T) + |d|^2 - n - log det(W W^T)  with
+   W = Lq^-1 Lp (root / Cholesky factors: inv_quad_logdet of q against [mean_diffs, root_p]) and
+   d = Lq^-1 (mp - mq); for triangular W with positive diagonal log det(W W^T) = sum_i ln w_ii^2.
+   Holds for ANY square W with positive diagonal.  partial: the identification of tr(W W^T) with
+   tr(Q^-1 P) of c10_kl_self_zero_partial (cyclic trace) and of the log-det difference with the sum of
+   logs of the diagonal is not proved (it is how linear_operator evaluates logdet; tested at 1e-8). *)
+Theorem c10_kl_nonnegative_cholesky_form_partial :
+  forall n (W : nat -> nat -> R) (d : nat -> R),
+    (forall i, (i < n)%nat -> (0 < W i i)%R) -> (0 <= kl2_chol n W d)%R.
+Proof. exact kl2_chol_nonneg. Qed.
+Print Assumptions c10_kl_nonnegative_cholesky_form_partial.
+
+Theorem c10_kl_cholesky_form_self_zero :
+  forall n, kl2_chol n (fun i j => if Nat.eqb i j then 1%R else 0%R) (fun _ => 0%R) = 0%R.
+Proof. exact kl2_chol_self. Qed.
+Print Assumptions c10_kl_cholesky_form_self_zero.
 
 (* the density's quadratic form is determined by the covariance, not by the inverse / solver used *)
 Theorem c10_quadratic_form_well_defined :
